@@ -140,4 +140,25 @@ CHECKS = {
              "that round instant, at the exact round time, to the multicast group; no round after all were found.",
         note=_TB,
     ),
+    "C11": dict(
+        engine="E3 bounded-exhaustive inputs", level="exploration", design_ref="5/C11",
+        technique="full product of Subscribe fields x server configurations x listener decision x channel x prior state against a reference Ack/Nack function",
+        text="Every Subscribe entry over (2 services x 2 instances x 2 majors x 3 eventgroups x 3 counters x 4 TTLs x 0/1/2 "
+             "endpoints x extra option) against 8 server configurations (none, running, not started, stopped, wildcard "
+             "instance, wildcard major, two services, three instances), accept/reject, unicast/multicast, three prior "
+             "states reached by real earlier messages and two collection timeouts (343k cases), plus all ordered pairs of "
+             "entries of a reduced domain in one message; answers are decoded from the wire; multicast cases are also "
+             "compared with a twin run by canonical state snapshot.",
+        note=_TB,
+    ),
+    "C14": dict(
+        engine="E1 replay-BFS", level="model_checking", design_ref="5/C14",
+        technique="explicit-state BFS to closure over subscribe/stop-subscribe/start/stop/clock histories on the real ServiceSubscriber; reference server applying wire entries in order",
+        text="All sequences of subscribe / stop-subscribe / start / stop for up to four (eventgroup, server) pairs (IPv4+UDP "
+             "and IPv6+TCP local endpoints, two servers) with clock moves to and around the refresh instants, calls placed "
+             "before and after the refresh timer of the same iteration, and bounded two-calls-in-one-iteration deviations; "
+             "three configurations, explored to closure; the reference server must hold exactly the requested set at every "
+             "idle state and refresh gaps must not exceed the interval.",
+        note=_TB,
+    ),
 }
